@@ -23,14 +23,15 @@ TInit ==
 Same == UNCHANGED vars
 ToSet(seq) == {seq[i] : i \in 1..Len(seq)}
 
-TStart    == Line.e = "start"    /\ Start(Line.r, Line.body, Line.len)
-TStartOn  == Line.e = "starton"  /\ StartOn(Line.r, Line.c, Line.body, Line.len)
-TReserve  == Line.e = "reserve"  /\ Reserve(Line.c, Line.ok)
+TStart    == Line.e = "start"    /\ Start(Line.r, Line.body, Line.len, Line.hdr)
+TStartOn  == Line.e = "starton"  /\ StartOn(Line.r, Line.c, Line.body, Line.len, Line.hdr)
+TReserve  == Line.e = "reserve"  /\ Reserve(Line.c, Line.ok, Line.via = "nethttp")
+TRelease  == Line.e = "release"  /\ Release(Line.c)
 TCancel   == Line.e = "cancel"   /\ Cancel(Line.r)
 TCloseB   == Line.e = "closebody" /\ CloseBody(Line.r)
 TNoop     == Line.e \in {"tick", "bwrite", "bclose", "e_ping", "e_goaway"} /\ Same
 TSettings == Line.e = "p_settings" /\ Settings(Line.c, Line.max)
-TSetOther == Line.e = "p_settings_other" /\ SettingsOther(Line.c)
+TSetOther == Line.e = "p_settings_other" /\ SettingsOther(Line.c, Line.kind = "iws")
 TResp     == Line.e = "p_resp"   /\ Resp(Line.c, Line.s, Line.es)
 TSData    == Line.e = "p_data"   /\ SData(Line.c, Line.s, Line.es)
 TSRst     == Line.e = "p_rst"    /\ SRst(Line.c, Line.s, Line.code)
@@ -50,7 +51,7 @@ TEnd      == Line.e = "end" /\ (J18 => (AllTerminated \/ "StrictQueueStall" \in 
 TNext ==
     /\ l <= Meta.ends[cur]
     /\ l' = l + 1 /\ cur' = cur
-    /\ (TStart \/ TStartOn \/ TReserve \/ TCancel \/ TCloseB \/ TNoop \/ TSettings \/ TSetOther \/ TResp \/ TSData \/ TSRst
+    /\ (TStart \/ TStartOn \/ TReserve \/ TRelease \/ TCancel \/ TCloseB \/ TNoop \/ TSettings \/ TSetOther \/ TResp \/ TSData \/ TSRst
         \/ TPingAck \/ TGoAway \/ TSClose \/ TDial \/ THdr \/ TData \/ TRst \/ TRet \/ TCClosed \/ TQ \/ TEnd)
     /\ dn' = (dev' # dev)
 
